@@ -10,6 +10,15 @@ class MachineryError(Exception):
     pass
 
 
+def _die_with_parent():
+    """child processes (probes, the real CLI) are killed when the checking process dies: no orphaned analyses keep cores busy"""
+    try:
+        import ctypes, signal
+        ctypes.CDLL('libc.so.6').prctl(1, signal.SIGKILL)          # PR_SET_PDEATHSIG
+    except Exception:
+        pass
+
+
 def run_probe(script, payload, timeout=120, env=None):
     """Run a probe script (imports Polar) under /venv/bin/python with a hard wall-clock budget.
     returns (status, obj) with status in ok / timeout / crash"""
@@ -17,7 +26,7 @@ def run_probe(script, payload, timeout=120, env=None):
     e.setdefault('PYTHONHASHSEED', '0')
     if env: e.update(env)
     try:
-        p = subprocess.run([VENV_PY, os.path.join(HERE, 'probe', script)], input=json.dumps(payload), capture_output=True,
+        p = subprocess.run([VENV_PY, os.path.join(HERE, 'probe', script)], input=json.dumps(payload), capture_output=True, preexec_fn=_die_with_parent,
                            text=True, timeout=timeout, env=e, cwd=REPO)
     except subprocess.TimeoutExpired:
         return 'timeout', None
@@ -165,7 +174,7 @@ def run_cli(src, args, timeout=120, env=None, suffix='.prob'):
     with _tempfile.NamedTemporaryFile('w', suffix=suffix, delete=False, dir=_tempfile.gettempdir()) as f:
         f.write(src); path = f.name
     try:
-        p = subprocess.run([VENV_PY, os.path.join(REPO, 'polar.py'), path] + list(args), capture_output=True, text=True, timeout=timeout, env=e, cwd=REPO)
+        p = subprocess.run([VENV_PY, os.path.join(REPO, 'polar.py'), path] + list(args), capture_output=True, preexec_fn=_die_with_parent, text=True, timeout=timeout, env=e, cwd=REPO)
         return ('ok' if p.returncode == 0 else 'error'), _ANSI.sub('', p.stdout), _ANSI.sub('', p.stderr)
     except subprocess.TimeoutExpired:
         return 'timeout', '', ''
@@ -203,7 +212,7 @@ def run_cli_files(srcs, args, timeout=180, env=None):
         for src in srcs:
             with _tempfile.NamedTemporaryFile('w', suffix='.prob', delete=False) as f:
                 f.write(src); paths.append(f.name)
-        p = subprocess.run([VENV_PY, os.path.join(REPO, 'polar.py')] + paths + list(args), capture_output=True, text=True, timeout=timeout, env=e, cwd=REPO)
+        p = subprocess.run([VENV_PY, os.path.join(REPO, 'polar.py')] + paths + list(args), capture_output=True, preexec_fn=_die_with_parent, text=True, timeout=timeout, env=e, cwd=REPO)
         return ('ok' if p.returncode == 0 else 'error'), _ANSI.sub('', p.stdout), _ANSI.sub('', p.stderr)
     except subprocess.TimeoutExpired:
         return 'timeout', '', ''
